@@ -1160,9 +1160,11 @@ func genLimit(r *rand.Rand, id string, size int, total int) []string {
 		acl = joinInts(append(append([]int{}, peers...), extra))
 	}
 	// a quarter of the scenarios build their stores with the maximum-history option: the limit of a Load
-	// that is given none (or a non-positive one)
+	// that is given none (or a non-positive one). Only non-positive values: they must all mean "everything"
+	// (a positive one would make EVERY restart of the scenario a limited load, and the steps of this family
+	// between two observations assume fully loaded stores after an unlimited restart)
 	if g.pick(4) == 0 {
-		sortfn += fmt.Sprintf(" maxhist=%d", []int{0, -1, 1, 2, 3, 5}[g.pick(6)])
+		sortfn += fmt.Sprintf(" maxhist=%d", []int{0, -1, -7}[g.pick(3)])
 	}
 	g.add("scn %s kind=%s acl=%s peers=%s%s", id, kind, acl, joinInts(peers), sortfn)
 	p := peers[0]
